@@ -100,8 +100,8 @@ def handleAnneal (j : Json) : Except String Json := do
     let c : Except Err (Prep Float) := do
       let o ← obj
       let (o, P) ← match fn with
-        | "qubo" => do pure (← quboToQuso o, { P with init := ← booleanToSpinInit P.init })
-        | "pubo" => do pure (← puboToPuso o, { P with init := ← booleanToSpinInit P.init })
+        | "qubo" => do pure (← Anneal.quboToQuso o, { P with init := ← booleanToSpinInit P.init })
+        | "pubo" => do pure (← Anneal.puboToPuso o, { P with init := ← booleanToSpinInit P.init })
         | _ => pure (o, P)
       prep (if puso then dispatchPuso else dispatchQuso) o P
     match c with
